@@ -47,6 +47,7 @@ class FakeAMQPServer:
         self.dropped = []        # messages discarded (no DLX / unroutable)
         self.confirm_turns = 0   # loop turns between routing (and delivery) of a publish and its confirm
         self.settle_turns = 0    # loop turns a basic_ack/nack/reject call takes to return after the server acted on it
+        self.consume_ok_turns = 0  # loop turns between the first deliveries of a new consumer and the ConsumeOk reply reaching the caller
 
     def declare(self, name, arguments):
         if name not in self.queues:
@@ -146,6 +147,8 @@ class FakeChannel:
         self.consumers[tag] = (queue, consumer_callback)
         self.log.append(("consume", queue, tag))
         self._pump(asyncio.get_running_loop())
+        for _ in range(self.server.consume_ok_turns):
+            await asyncio.sleep(0)       # aiormq registers the callback before the RPC reply is processed
         return spec.Basic.ConsumeOk(consumer_tag=tag)
 
     async def basic_cancel(self, consumer_tag, **kw):
@@ -173,15 +176,23 @@ class FakeChannel:
     # -- settling -----------------------------------------------------------------------
     async def basic_ack(self, delivery_tag, multiple=False, **kw):
         await asyncio.sleep(0)
-        self.log.append(("ack", delivery_tag))
-        self.unacked.pop(delivery_tag, None)
+        self.log.append(("ack", delivery_tag, multiple))
+        for t in self._tags(delivery_tag, multiple):
+            self.unacked.pop(t, None)
         self._pump(asyncio.get_running_loop())
         await self._drain()
 
+    def _tags(self, delivery_tag, multiple):
+        """AMQP: multiple=True covers every unacknowledged delivery on the channel up to and including the tag."""
+        if not multiple:
+            return [delivery_tag]
+        return sorted(t for t in self.unacked if t <= delivery_tag or delivery_tag == 0)
+
     async def basic_nack(self, delivery_tag, multiple=False, requeue=True, **kw):
         await asyncio.sleep(0)
-        self.log.append(("nack", delivery_tag, requeue))
-        self._settle(delivery_tag, requeue)
+        self.log.append(("nack", delivery_tag, requeue, multiple))
+        for t in self._tags(delivery_tag, multiple):
+            self._settle(t, requeue)
         await self._drain()
 
     async def basic_reject(self, delivery_tag, requeue=True, **kw):
@@ -212,6 +223,14 @@ class FakeChannel:
         else:
             self.server.dead_letter(q, m, loop, reason="rejected")
         self.server.pump(loop)
+
+    def close(self):
+        """Channel/connection closed: the server requeues every delivery this channel has not settled."""
+        loop = asyncio.get_running_loop()
+        self.consumers.clear()
+        for dtag in sorted(self.unacked):
+            self._settle(dtag, True)
+        self.is_closed = True
 
     # -- queues --------------------------------------------------------------------------
     async def queue_declare(self, queue="", *, durable=False, arguments=None, **kw):
